@@ -30,8 +30,13 @@ RegFields(r) == [j \in 1..Len(Registry[r].fields) |->
 FieldsOf(e) == [j \in 1..Len(e.fields) |-> [kind |-> e.fields[j].kind, vec |-> e.fields[j].vec, bit |-> e.fields[j].bit]]
 NamesOf(e) == [j \in 1..Len(e.fields) |-> e.fields[j].lname]
 ParamNames(k) == [j \in 1..Len(DataParams(k)) |-> DataParams(k)[j].lname]
-\* entry e (a registry or wrapper entry) against T(k); names are compared for the API schema only (its types
-\* are generated or written after the schema; the MTProto service objects abbreviate freely)
+\* entry e (a registry or wrapper entry) against T(k).  Names tell fields of equal type apart; the hand-written MTProto
+\* service objects abbreviate a few of them: the abbreviations are listed here
+Abbrev == [fingerprints |-> "serverpublickeyfingerprints", retry |-> "retryid", obj |-> "result", code |-> "errorcode",
+           newsalt |-> "newserversalt"]
+Full(n) == IF n \in DOMAIN Abbrev THEN Abbrev[n] ELSE n
+NamesAgree(k, e) == \A j \in 1..Len(e.fields) :
+                      NamesOf(e)[j] = ParamNames(k)[j] \/ (Schema[k].file = "mtproto.tl" /\ Full(NamesOf(e)[j]) = ParamNames(k)[j])
 StructProblem(k, e) ==
   IF e.kind # "struct" THEN "struct-constructor-not-a-struct"
   ELSE IF e.flagidx # T(k).flagidx THEN "flags-word-position"
@@ -39,7 +44,7 @@ StructProblem(k, e) ==
   ELSE IF \E j \in 1..Len(T(k).fields) : FieldsOf(e)[j].kind # T(k).fields[j].kind THEN "field-kind-or-order"
   ELSE IF \E j \in 1..Len(T(k).fields) : FieldsOf(e)[j].vec # T(k).fields[j].vec THEN "vector-marker"
   ELSE IF \E j \in 1..Len(T(k).fields) : FieldsOf(e)[j].bit # T(k).fields[j].bit THEN "conditional-bit"
-  ELSE IF Schema[k].file = "api_121.tl" /\ NamesOf(e) # ParamNames(k) THEN "field-name-or-order"
+  ELSE IF ~NamesAgree(k, e) THEN "field-name-or-order"
   ELSE ""
 
 Problem(k) ==  \* "" when definition k is translated faithfully
